@@ -105,15 +105,15 @@ macro "jobok_at" : tactic =>
       simp only [compactOnly, preAlloc, outPending, outOnDisk, inCommit, ownRange, csnapRange, editRange, delRange, postSwap,
         PastPending, Dead, DeadR, outNo] at * <;> grind [upd]))
 
-theorem safe_startRollup {s : St} {j : Nat} (h : Safe s) (hj : j < s.nJob) (hpc : (s.job j).pc = .start)
-    (hk : (s.job j).kind = .rollupDone) :
-    Safe (s.setJob j { s.job j with edit := { rollDel := (s.job j).payload.map (·.1) }, pc := .ready }) := by
+theorem safe_startRollup {s : St} {j : Nat} {rd : List (Nat × Nat)} (h : Safe s) (hj : j < s.nJob) (hpc : (s.job j).pc = .start)
+    (hk : (s.job j).kind = .rollupDone ∨ (s.job j).kind = .rollupJob) :
+    Safe (s.setJob j { s.job j with edit := { rollDel := rd }, pc := .ready }) := by
   apply safe_setJob h
   · obtain ⟨h0, hn0, hn0b, hn0c, hn1, hn2, h1, h2, h3, h4, h5, h6, h7, h8, h9, h10, hrec, hnf, hrd, h11, h12, h13, h14⟩ := h.jobs j hj
     generalize s.job j = b at *
     obtain ⟨kind, pc, payload, snap, inputs, trivial, todoIn, out, edit, csnap, newVer, prev, prevZero, nfRead, dlist, live, todoDel⟩ := b
-    simp only at hpc hk; subst hpc hk
-    jobok_at
+    simp only at hpc hk; subst hpc
+    rcases hk with hk | hk <;> subst hk <;> jobok_at
   · left; rfl
 
 theorem safe_setPc_plain {s : St} {j : Nat} {pc' : Pc} (h : Safe s)
@@ -170,10 +170,18 @@ theorem safe_jRead {s : St} {j : Nat} (h : Safe s) (hj : j < s.nJob) (hpc : (s.j
       simp only at hpc; subst hpc
       jobok_at
 
+theorem flushMarks_fst (cfg : Cfg) (b : Job) : ∀ f ∈ (flushMarks cfg b).map (·.1), f ∈ outNo b := by
+  intro f hf
+  simp only [flushMarks, List.mem_map, List.mem_flatMap] at hf
+  obtain ⟨p, ⟨g, hg, iv, _, rfl⟩, rfl⟩ := hf
+  exact hg
+
+set_option maxHeartbeats 1000000 in
 theorem safe_jCreate {cfg : Cfg} {s : St} {j : Nat} (h : Safe s) (hj : j < s.nJob) (hpc : (s.job j).pc = .allocd) :
     Safe (jCreate cfg s j) := by
   unfold jCreate
   dsimp only
+  have hfm := flushMarks_fst cfg (s.job j)
   have hb0 := h.jobs j hj
   have h1 := safe_create (fs := outNo (s.job j)) h hb0.outlt
   have hb := jobOk_create (fs := outNo (s.job j)) hb0
